@@ -3,7 +3,8 @@
 // Families: rules (every ReferenceRule value x level), anyelement (every CellmlElementType x every stored object kind x every
 // accessor), explain (a failing result is always explained: one scenario per failing path of every service), imports (import
 // graphs over files that produce messages, warnings, deleted errors, missing/garbage files; strict and permissive), corpus
-// (all single deviations of seed documents through parser/validator/printer/analyser/importer/annotator in both modes).
+// (all single deviations of seed documents through parser/validator/printer/analyser/importer/annotator in both modes), attrgrid
+// (element kind x attribute position x attribute fault, both parser modes).
 // The Logger-coherence checker (vf::loggerIncoherence, common.hpp) runs after every service call (ctx.logger).
 #include "common.hpp"
 #include "logger_p.h"
@@ -34,10 +35,57 @@ bool amFailing(AnalyserModel::Type t)
 {
     return t == AnalyserModel::Type::INVALID || t == AnalyserModel::Type::UNDERCONSTRAINED || t == AnalyserModel::Type::OVERCONSTRAINED || t == AnalyserModel::Type::UNSUITABLY_CONSTRAINED;
 }
+// "an item whose stored object matches its stated element type or is undefined": besides the C++ type of the stored object
+// (vf::itemIncoherence, common.hpp) the object must EXIST: an item typed X whose X-pointer is null is neither an X nor undefined.
+const char *elementTypeName(CellmlElementType t)
+{
+    static const char *N[] = {"COMPONENT", "COMPONENT_REF", "CONNECTION", "ENCAPSULATION", "IMPORT", "MAP_VARIABLES", "MATH", "MODEL", "RESET", "RESET_VALUE", "TEST_VALUE", "UNDEFINED", "UNIT", "UNITS", "VARIABLE"};
+    int i = int(t);
+    return (i >= 0 && i < 15) ? N[i] : "OUT-OF-RANGE";
+}
+std::optional<std::string> typedItemWithoutObject(const IssuePtr &is)
+{
+    auto it = is->item();
+    if (!it) return std::string("item() is null");
+    bool has = true;
+    switch (it->type()) {
+    case CellmlElementType::UNDEFINED: return std::nullopt;
+    case CellmlElementType::MATH: { // no public getter: look at the stored object
+        const std::any &a = it->mPimpl->mItem;
+        has = a.type() == typeid(ComponentPtr) && std::any_cast<ComponentPtr>(a) != nullptr;
+        break;
+    }
+    case CellmlElementType::COMPONENT: case CellmlElementType::COMPONENT_REF: has = it->component() != nullptr; break;
+    case CellmlElementType::CONNECTION: case CellmlElementType::MAP_VARIABLES: has = it->variablePair() != nullptr; break;
+    case CellmlElementType::ENCAPSULATION: case CellmlElementType::MODEL: has = it->model() != nullptr; break;
+    case CellmlElementType::IMPORT: has = it->importSource() != nullptr; break;
+    case CellmlElementType::RESET: case CellmlElementType::RESET_VALUE: case CellmlElementType::TEST_VALUE: has = it->reset() != nullptr; break;
+    case CellmlElementType::UNIT: has = it->unitsItem() != nullptr; break;
+    case CellmlElementType::UNITS: has = it->units() != nullptr; break;
+    case CellmlElementType::VARIABLE: has = it->variable() != nullptr; break;
+    default: return std::string("type outside the enumeration");
+    }
+    if (!has) return std::string("item is typed ") + elementTypeName(it->type()) + " but holds no object of that kind";
+    return std::nullopt;
+}
+// every service call of this harness: shared coherence checker + the object-exists clause on every issue
+void logged(Ctx &ctx, const LoggerPtr &l, const char *service)
+{
+    ctx.logger(l, service);
+    for (size_t i = 0; i < l->issueCount(); ++i) {
+        auto is = l->issue(i);
+        if (!is) continue;
+        ctx.count("issues_item_checked");
+        if (auto x = typedItemWithoutObject(is)) {
+            ctx.violation(std::string("C15:issue-item-without-object:") + service + ":" + (is->item() ? elementTypeName(is->item()->type()) : "null") + ":rule=" + std::to_string(int(is->referenceRule())),
+                          {{"what", *x}, {"level", levelName(is->level())}, {"description", safe(is->description(), 300)}, {"issue-index", i}});
+        }
+    }
+}
 // "a failing result is always explained"
 void explained(Ctx &ctx, const LoggerPtr &l, const std::string &service, const std::string &call, bool failed, const std::string &situation, json detail = json::object())
 {
-    ctx.logger(l, service.c_str());
+    logged(ctx, l, service.c_str());
     ctx.outcome(service + ":" + call + ":" + (failed ? (l->issueCount() ? "failed+explained" : "FAILED-WITHOUT-ISSUE") : (l->issueCount() ? "ok+issues" : "ok")));
     if (failed && l->issueCount() == 0) ctx.violation("C15:unexplained-failure:" + service + ":" + call + ":" + situation, detail);
 }
@@ -502,26 +550,26 @@ const std::vector<Scenario> &scenarios()
     s.push_back({"validator:null-and-invalid", [](Ctx &ctx) {
                      auto v = Validator::create();
                      v->validateModel(nullptr);
-                     ctx.logger(v, "validator");
+                     logged(ctx, v, "validator");
                      ctx.outcome(std::string("validator:null-model:") + (v->issueCount() ? "issues" : "no-issues"));
                      v->validateModel(parseStrict(doc2("<component name=\"1bad\"><variable name=\"x\"/><variable name=\"x\" units=\"nope\" interface=\"sideways\" initial_value=\"abc\"/><reset/></component><units name=\"second\"/>", "0bad")));
-                     ctx.logger(v, "validator");
+                     logged(ctx, v, "validator");
                      v->validateModel(Model::create("fine"));
-                     ctx.logger(v, "validator");
+                     logged(ctx, v, "validator");
                      ctx.outcome(std::string("validator:valid-after-invalid:") + (v->issueCount() ? "issues" : "no-issues"));
                  }});
     s.push_back({"printer:bad-math-and-null", [](Ctx &ctx) {
                      auto p = Printer::create();
                      (void)p->printModel(nullptr);
-                     ctx.logger(p, "printer");
+                     logged(ctx, p, "printer");
                      auto m = Model::create("m");
                      auto c = Component::create("c");
                      c->setMath("<math><unclosed>");
                      m->addComponent(c);
                      (void)p->printModel(m);
-                     ctx.logger(p, "printer");
+                     logged(ctx, p, "printer");
                      (void)p->printModel(m, true);
-                     ctx.logger(p, "printer");
+                     logged(ctx, p, "printer");
                      ctx.outcome(std::string("printer:bad-math:") + (p->issueCount() ? "issues" : "no-issues"));
                  }});
     return s;
@@ -631,7 +679,7 @@ void importsRun(uint64_t i, Ctx &ctx)
     explained(ctx, imp, "importer", "resolveImports", !ok2, mode + ":import-graph:second-call", importsShow(i));
     auto v = Validator::create();
     v->validateModel(m);
-    ctx.logger(v, "validator");
+    logged(ctx, v, "validator");
     if (flat) {
         auto a = Analyser::create();
         a->analyseModel(flat);
@@ -806,13 +854,13 @@ void corpusRun(uint64_t i, Ctx &ctx)
     if (!model) { ctx.outcome(cls + ":null"); return; }
     auto validator = Validator::create();
     validator->validateModel(model);
-    ctx.logger(validator, "validator");
+    logged(ctx, validator, "validator");
     cls += std::string(" valid=") + (validator->errorCount() ? "no" : "yes");
     auto printer = Printer::create();
     (void)printer->printModel(model);
-    ctx.logger(printer, "printer");
+    logged(ctx, printer, "printer");
     (void)printer->printModel(model, true);
-    ctx.logger(printer, "printer");
+    logged(ctx, printer, "printer");
     auto analyser = Analyser::create();
     analyser->analyseModel(model);
     auto t = analyser->model() ? analyser->model()->type() : AnalyserModel::Type::UNKNOWN;
@@ -833,16 +881,170 @@ void corpusRun(uint64_t i, Ctx &ctx)
     }
     auto annotator = Annotator::create();
     annotator->setModel(model);
-    ctx.logger(annotator, "annotator");
+    logged(ctx, annotator, "annotator");
     auto ids = annotator->ids();
-    ctx.logger(annotator, "annotator");
+    logged(ctx, annotator, "annotator");
     for (auto &id : ids) {
         auto it = annotator->item(id);
         explained(ctx, annotator, "annotator", "item(id)", !it || it->type() == CellmlElementType::UNDEFINED, "id-listed-by-ids()");
     }
     (void)annotator->assignAllIds();
-    ctx.logger(annotator, "annotator");
+    logged(ctx, annotator, "annotator");
     ctx.outcome(cls);
+}
+
+// ------------------------------------------------------------------ family attrgrid: element kind x attribute position x attribute fault
+// Every CellML element kind of two base documents (2.0 and 1.1, component_ref at three nesting levels) x every POSITION in its
+// attribute list x {unknown attribute, attribute of the same local name in a foreign / in the CellML namespace, required attribute
+// missing (+ unknown attribute at every position), attribute value unresolvable (+ unknown attribute at every position)},
+// strict and permissive parser, then validator and printer. Every issue of every call is judged (logged()).
+const std::vector<std::pair<std::string, std::string>> &gridBases()
+{
+    static std::vector<std::pair<std::string, std::string>> b;
+    if (b.empty()) {
+        b.push_back({"grid-2.0", "<?xml version=\"1.0\" encoding=\"UTF-8\"?>\n<model xmlns=\"http://www.cellml.org/cellml/2.0#\" xmlns:xlink=\"http://www.w3.org/1999/xlink\" name=\"grid\" id=\"mid\">"
+                                 "<import xlink:href=\"ok.cellml\" id=\"impid\"><units units_ref=\"lu\" name=\"iu\" id=\"iuid\"/><component component_ref=\"lc\" name=\"ic\" id=\"icid\"/></import>"
+                                 "<units name=\"per_s\" id=\"uid\"><unit units=\"second\" prefix=\"milli\" exponent=\"-1\" multiplier=\"2\" id=\"unitid\"/></units>"
+                                 "<component name=\"a\" id=\"aid\"><variable name=\"x\" units=\"per_s\" interface=\"public_and_private\" initial_value=\"1\" id=\"xid\"/><variable name=\"t\" units=\"second\" interface=\"public_and_private\"/>"
+                                 "<reset variable=\"x\" test_variable=\"t\" order=\"1\" id=\"rid\"><test_value id=\"tvid\"/><reset_value id=\"rvid\"/></reset></component>"
+                                 "<component name=\"b\" id=\"bid\"><variable name=\"x\" units=\"per_s\" interface=\"public_and_private\"/></component>"
+                                 "<component name=\"c\" id=\"cid\"><variable name=\"x\" units=\"per_s\" interface=\"public\"/></component>"
+                                 "<connection component_1=\"a\" component_2=\"b\" id=\"connid\"><map_variables variable_1=\"x\" variable_2=\"x\" id=\"mapid\"/></connection>"
+                                 "<encapsulation id=\"encid\"><component_ref component=\"a\" id=\"cra\"><component_ref component=\"b\" id=\"crb\"><component_ref component=\"c\" id=\"crc\"/></component_ref></component_ref></encapsulation></model>\n"});
+        b.push_back({"grid-1.1", "<?xml version=\"1.0\"?>\n<model xmlns=\"http://www.cellml.org/cellml/1.1#\" xmlns:cmeta=\"http://www.cellml.org/metadata/1.0#\" xmlns:xlink=\"http://www.w3.org/1999/xlink\" name=\"grid\" cmeta:id=\"mid\">"
+                                 "<import xlink:href=\"v11.cellml\"><units units_ref=\"lu\" name=\"iu\"/><component component_ref=\"lc\" name=\"ic\"/></import>"
+                                 "<units name=\"per_s\" cmeta:id=\"uid\"><unit units=\"second\" prefix=\"milli\" exponent=\"-1\" multiplier=\"2\"/></units>"
+                                 "<component name=\"a\" cmeta:id=\"aid\"><variable name=\"x\" units=\"per_s\" public_interface=\"out\" private_interface=\"out\" initial_value=\"1\" cmeta:id=\"xid\"/></component>"
+                                 "<component name=\"b\"><variable name=\"x\" units=\"per_s\" public_interface=\"in\" private_interface=\"out\"/></component>"
+                                 "<component name=\"c\"><variable name=\"x\" units=\"per_s\" public_interface=\"in\"/></component>"
+                                 "<group><relationship_ref relationship=\"encapsulation\"/><component_ref component=\"a\"><component_ref component=\"b\"><component_ref component=\"c\"/></component_ref></component_ref></group>"
+                                 "<connection><map_components component_1=\"a\" component_2=\"b\"/><map_variables variable_1=\"x\" variable_2=\"x\"/></connection>"
+                                 "<connection><map_components component_1=\"b\" component_2=\"c\"/><map_variables variable_1=\"x\" variable_2=\"x\"/></connection></model>\n"});
+    }
+    return b;
+}
+struct GridAttr
+{
+    std::string href, prefix, name, value;
+};
+struct GridCase
+{
+    int base, elem;
+    int kind; // 0 unknown attribute, 1 same local name in a foreign namespace, 2 same local name in the element's own (CellML) namespace, 3 attribute missing, 4 attribute value unresolvable
+    int j;    // the legitimate attribute concerned (-1: none)
+    int p;    // position of the extra (unknown / namespaced) attribute in the resulting list (-1: no extra attribute)
+};
+std::vector<GridAttr> attrsOf(xmlNodePtr n)
+{
+    std::vector<GridAttr> a;
+    for (xmlAttrPtr at = n->properties; at; at = at->next) {
+        xmlChar *v = xmlNodeGetContent((xmlNodePtr)at);
+        a.push_back({at->ns && at->ns->href ? (const char *)at->ns->href : "", at->ns && at->ns->prefix ? (const char *)at->ns->prefix : "", (const char *)at->name, v ? (const char *)v : ""});
+        if (v) xmlFree(v);
+    }
+    return a;
+}
+const std::vector<GridCase> &gridCases()
+{
+    static std::vector<GridCase> c;
+    if (c.empty()) {
+        for (size_t b = 0; b < gridBases().size(); ++b) {
+            const std::string &src = gridBases()[b].second;
+            c.push_back({int(b), -1, 0, -1, -1}); // the base document itself
+            xmlDocPtr d = xmlReadMemory(src.data(), int(src.size()), "g.xml", nullptr, XML_PARSE_NOERROR | XML_PARSE_NOWARNING | XML_PARSE_NONET);
+            std::vector<xmlNodePtr> els;
+            if (d) listElements(xmlDocGetRootElement(d), els);
+            for (size_t e = 0; e < els.size(); ++e) {
+                int n = int(attrsOf(els[e]).size());
+                for (int p = 0; p <= n; ++p) c.push_back({int(b), int(e), 0, -1, p});
+                for (int kind : {1, 2}) for (int j = 0; j < n; ++j) for (int p = 0; p <= n; ++p) c.push_back({int(b), int(e), kind, j, p});
+                for (int j = 0; j < n; ++j) for (int p = -1; p <= n - 1; ++p) c.push_back({int(b), int(e), 3, j, p});
+                for (int j = 0; j < n; ++j) for (int p = -1; p <= n; ++p) c.push_back({int(b), int(e), 4, j, p});
+            }
+            if (d) xmlFreeDoc(d);
+        }
+    }
+    return c;
+}
+std::string gridDocument(const GridCase &g, std::string &what, std::string &elementName)
+{
+    const std::string &src = gridBases()[size_t(g.base)].second;
+    elementName = "-";
+    if (g.elem < 0) { what = "base document"; return src; }
+    xmlDocPtr d = xmlReadMemory(src.data(), int(src.size()), "g.xml", nullptr, XML_PARSE_NOERROR | XML_PARSE_NOWARNING | XML_PARSE_NONET);
+    std::vector<xmlNodePtr> els;
+    listElements(xmlDocGetRootElement(d), els);
+    xmlNodePtr n = els[size_t(g.elem)];
+    // nesting level distinguishes the component_refs
+    int level = 0;
+    for (xmlNodePtr q = n->parent; q && q->type == XML_ELEMENT_NODE; q = q->parent) ++level;
+    elementName = std::string((const char *)n->name) + "@" + std::to_string(level) + (n->parent && n->parent->type == XML_ELEMENT_NODE ? std::string("<") + (const char *)n->parent->name : "");
+    std::vector<GridAttr> list = attrsOf(n);
+    std::string ownNs = n->ns && n->ns->href ? (const char *)n->ns->href : "";
+    GridAttr extra {"", "", "bogus", "1"};
+    static const char *K[] = {"unknown attribute", "attribute of the same local name in a foreign namespace", "attribute of the same local name in the CellML namespace", "attribute missing", "attribute value unresolvable"};
+    what = K[g.kind];
+    if (g.j >= 0) what += " (" + (list[size_t(g.j)].prefix.empty() ? "" : list[size_t(g.j)].prefix + ":") + list[size_t(g.j)].name + ")";
+    if (g.kind == 1) extra = {"http://example.org/foreign", "fx", list[size_t(g.j)].name, list[size_t(g.j)].value};
+    if (g.kind == 2) extra = {ownNs, "cellmlns", list[size_t(g.j)].name, list[size_t(g.j)].value};
+    if (g.kind == 3) list.erase(list.begin() + g.j);
+    if (g.kind == 4) list[size_t(g.j)].value = "no_such_thing_9";
+    if (g.p >= 0) {
+        list.insert(list.begin() + std::min<size_t>(size_t(g.p), list.size()), extra);
+        what += (g.kind >= 3 ? std::string(" + unknown attribute") : std::string("")) + " at position " + std::to_string(g.p) + " of " + std::to_string(list.size() - 1) + " other attributes";
+    }
+    while (n->properties) xmlRemoveProp(n->properties);
+    for (auto &a : list) {
+        if (a.href.empty()) xmlNewProp(n, BAD_CAST a.name.c_str(), BAD_CAST a.value.c_str());
+        else {
+            xmlNsPtr ns = nullptr;
+            for (xmlNsPtr q = n->nsDef; q; q = q->next) if (q->prefix && a.prefix == (const char *)q->prefix) ns = q;
+            if (!ns && !(a.prefix == "cellmlns" || a.prefix == "fx")) ns = xmlSearchNsByHref(d, n, BAD_CAST a.href.c_str());
+            if (!ns || !ns->prefix) ns = xmlNewNs(n, BAD_CAST a.href.c_str(), BAD_CAST a.prefix.c_str());
+            xmlNewNsProp(n, ns, BAD_CAST a.name.c_str(), BAD_CAST a.value.c_str());
+        }
+    }
+    xmlChar *mem = nullptr;
+    int size = 0;
+    xmlDocDumpMemory(d, &mem, &size);
+    std::string out(mem ? (const char *)mem : "", size_t(size));
+    if (mem) xmlFree(mem);
+    xmlFreeDoc(d);
+    return out;
+}
+uint64_t gridCount() { return gridCases().size() * 2; }
+json gridShow(uint64_t i)
+{
+    const GridCase &g = gridCases()[i / 2];
+    std::string what, el;
+    std::string doc = gridDocument(g, what, el);
+    return {{"base", gridBases()[size_t(g.base)].first}, {"element", el}, {"fault", what}, {"parser", i % 2 == 0 ? "strict" : "permissive"}, {"document", safe(doc, 3500)}};
+}
+void gridRun(uint64_t i, Ctx &ctx)
+{
+    const GridCase &g = gridCases()[i / 2];
+    bool strict = i % 2 == 0;
+    std::string what, el;
+    std::string doc = gridDocument(g, what, el);
+    std::string mode = strict ? "strict" : "permissive";
+    ++ctx.judged;
+    auto parser = Parser::create(strict);
+    auto model = parser->parseModel(doc);
+    explained(ctx, parser, "parser", "parseModel", model == nullptr, mode + ":attribute-grid", {{"element", el}, {"fault", what}});
+    ctx.count("grid_parser_issues", parser->issueCount());
+    static const char *K[] = {"unknown", "foreign-ns-duplicate", "cellml-ns-duplicate", "missing", "unresolvable"};
+    ctx.outcome(gridBases()[size_t(g.base)].first + ":" + el + ":" + K[g.kind] + (g.kind >= 3 && g.p >= 0 ? "+unknown" : "") + ":" + mode + ":" + (parser->errorCount() ? "errors" : parser->issueCount() ? "messages-or-warnings" : "clean"));
+    if (!model) return;
+    auto validator = Validator::create();
+    validator->validateModel(model);
+    logged(ctx, validator, "validator");
+    ctx.count("grid_validator_issues", validator->issueCount());
+    auto printer = Printer::create();
+    (void)printer->printModel(model);
+    logged(ctx, printer, "printer");
+    auto importer = Importer::create(strict);
+    bool ok = importer->resolveImports(model, scratchDir());
+    explained(ctx, importer, "importer", "resolveImports", !ok, mode + ":attribute-grid", {{"element", el}, {"fault", what}});
 }
 
 } // namespace
@@ -855,6 +1057,7 @@ int main(int argc, char **argv)
         Family {"explain", explainCount, explainRun, explainShow},
         Family {"imports", importsCount, importsRun, importsShow},
         Family {"corpus", corpusCount, corpusRun, corpusShow},
+        Family {"attrgrid", gridCount, gridRun, gridShow},
     };
     return harnessMain(argc, argv, fs);
 }
